@@ -141,15 +141,18 @@ def blob_to_csv(
             column_rename[src_key] = dst_key
         csv_df.rename(mapper=column_rename, axis=1, inplace=True)
 
+        columns_to_keep = set(['cell_id'])
+        for level in taxonomy_tree.hierarchy:
+            readable_level = taxonomy_tree.level_to_name(level_label=level)
+            columns_to_keep.add(f'{readable_level}_label')
+            columns_to_keep.add(f'{readable_level}_name')
+            columns_to_keep.add(f'{readable_level}_alias')
+            columns_to_keep.add(f'{readable_level}_{confidence_label}')
+
         columns_to_drop = []
         for col in csv_df.columns:
-            if col == 'cell_id':
-                continue
-            if 'name' in col or 'label' in col or 'alias' in col:
-                continue
-            if confidence_label in col:
-                continue
-            columns_to_drop.append(col)
+            if col not in columns_to_keep:
+                columns_to_drop.append(col)
 
         if len(columns_to_drop) > 0:
             csv_df.drop(columns_to_drop, axis=1, inplace=True)
@@ -164,6 +167,7 @@ def blob_to_df(
     Convert a JSON blob of results into a pandas dataframe
     """
     records = []
+    categorical_columns = set()
     for cell in results_blob:
         this_record = {'cell_id': cell['cell_id']}
         for level in taxonomy_tree.hierarchy:
@@ -175,12 +179,15 @@ def blob_to_df(
                         name_key='name')
             this_record[f'{readable_level}_label'] = label
             this_record[f'{readable_level}_name'] = name
+            categorical_columns.add(f'{readable_level}_label')
+            categorical_columns.add(f'{readable_level}_name')
             if level == taxonomy_tree.leaf_level:
                 alias = taxonomy_tree.label_to_name(
                             level=level,
                             label=label,
                             name_key='alias')
                 this_record[f'{readable_level}_alias'] = alias
+                categorical_columns.add(f'{readable_level}_alias')
 
             for element in cell[level]:
                 if element == 'assignment':
@@ -190,26 +197,22 @@ def blob_to_df(
                     for idx in range(len(value)):
                         key = f'{readable_level}_{element}_{idx}'
                         this_record[key] = value[idx]
+                        if 'assignment' in element:
+                            categorical_columns.add(key)
                 else:
                     key = f'{readable_level}_{element}'
                     this_record[key] = value
+                    if 'assignment' in element:
+                        categorical_columns.add(key)
 
         records.append(this_record)
 
     df = pd.DataFrame(records)
 
+    # (decide by the column's role, not by its text: the name of a
+    # taxonomy level may itself contain 'label', 'name', 'alias'...)
     for col in df.columns:
-        convert_to_category = False
-        if 'label' in col:
-            convert_to_category = True
-        elif 'name' in col:
-            convert_to_category = True
-        elif 'alias' in col:
-            convert_to_category = True
-        elif 'assignment' in col:
-            convert_to_category = True
-
-        if convert_to_category:
+        if col in categorical_columns:
             df[col] = df[col].astype('category')
 
     return df
